@@ -33,6 +33,7 @@ THEOREMS = [
     "C13_decide_path",
     "C13_use_skips_structure",
     "C13_wrapper_iff_names_differ",
+    "C13_rename_preserves_tail",
     "C13_last_segment_spec",
     "C13_non_type_path_generates",
     "C13_matches_is_cargo",
@@ -543,11 +544,69 @@ def pipe_cases(ctx):
         sv = semver_cases(ctx)
         pool = [(rs, v) for rs, vs, st in sv if st in ("grid", "tags", "compound") for v in vs]
         pairs += rnd.sample(pool, 1500)
+    cases += recur_cases(ctx, rnd)
     for rq, v in pairs:
         for pol in (["generate"] if ctx.tier == "quick" else ["generate", "allow"]):
             cases.append({"ext": {"crate": "util", "version": rq, "path": "util::Thing"}, "defname": "Thing",
                           "crates": [{"name": "util", "version": v}], "policy": pol, "params": [], "stream": "versions"})
     return cases
+
+
+def recur_cases(ctx, rnd):
+    """Rename of the FIRST segment only: crate names drawn from the same small
+    alphabet as the module/type segments, so that the crate's identifier occurs
+    again in the path - as a whole later segment, as prefix/suffix/infix of one,
+    with another case, inside generic arguments - with hyphen/underscore
+    variants for the crate and for the rename."""
+    out = []
+    crates = ["a", "util", "std", "my_crate", "my-util", "my_util"]
+
+    def tails(I):
+        return [I + "::Gadget", I, I + "_types::Gadget", "my" + I + "::Gadget", "x" + I + "y::" + I,
+                I.capitalize() + "::Gadget", "m::" + I + "::" + I, "Wrap<" + I + "::Inner>", "m::Wrap<" + I + ">",
+                "Wrap<" + I + "::" + I + "," + I + "_x::Y>", "Gadget", I + I, I + "::" + I + "::" + I + "_" + I]
+    k = 0
+    for crate in crates:
+        I = crate.replace("-", "_")
+        renames = [None, "other", "my-util", "my_util", crate + "-ng", "x", I, "a"]
+        for tail in tails(I):
+            for rn in renames:
+                k += 1
+                cfgv = ["*", "*", "1.2.3", "*", "2.0.0", "!"][k % 6] if k % 5 == 0 else "*"
+                c = {"name": crate, "version": cfgv}
+                if rn is not None:
+                    c["rename"] = rn
+                ps = [["str"], [], []][k % 3] if "<" not in tail else []
+                ext = {"crate": crate, "version": "1.0.0", "path": I + "::" + tail}
+                if ps:
+                    ext["parameters"] = [PARAMS[q][0] for q in ps]
+                out.append({"ext": ext, "defname": ["Gadget", "Thing", "Other"][k % 3],
+                            "crates": [c], "policy": POLICIES[k % 3], "params": ps, "stream": "recur"})
+    # seeded: segments assembled from the crate's own identifier and a few neighbours
+    n = 150 if ctx.tier == "quick" else 1500
+    for _ in range(n):
+        crate = rnd.choice(crates)
+        I = crate.replace("-", "_")
+        toks = [I, I, "my", "_types", "x", I.capitalize(), "a", "std", "util", "_", "2"]
+        segs = []
+        for _s in range(rnd.choice([1, 2, 2, 3, 4])):
+            while True:
+                seg = "".join(rnd.choice(toks) for _t in range(rnd.choice([1, 1, 2, 3])))
+                if RUST_IDENT.match(seg) and seg not in RUST_KEYWORDS and seg != "_":
+                    break
+            segs.append(seg)
+        if rnd.random() < 0.5:
+            segs.append(rnd.choice(["Gadget", "Thing"]))       # so that definition name = last segment happens
+        path = I + "::" + "::".join(segs)
+        if rnd.random() < 0.2:
+            path += "<" + I + "::" + rnd.choice(segs) + ">"
+        rn = rnd.choice([None, "other", "my-util", "my_util", crate + "-ng", "x", I, rnd.choice(segs), "re-" + I])
+        c = {"name": crate, "version": rnd.choice(["*", "*", "1.0.0", "1.9.9", "2.0.0"])}
+        if rn is not None:
+            c["rename"] = rn
+        out.append({"ext": {"crate": crate, "version": "1.0.0", "path": path}, "defname": rnd.choice(["Gadget", "Other", "Thing"]),
+                    "crates": [c], "policy": rnd.choice(POLICIES), "params": [], "stream": "recur"})
+    return out
 
 
 def readme_wellformed(ext):
@@ -691,14 +750,46 @@ RUST_KEYWORDS = set("as break const continue else enum extern false fn for if im
                     "box do final macro override priv typeof unsized virtual yield try".split())
 
 
+def _parse_simple_path(t, i):
+    """ ['::'] seg ('::' seg)* ; seg := ident ['<' path (',' path)* '>'] ; returns end index or None """
+    n = len(t)
+    if t.startswith("::", i):
+        i += 2
+    while True:
+        m = re.compile(r"[A-Za-z_][A-Za-z0-9_]*").match(t, i)
+        if not m or m.group(0) in RUST_KEYWORDS or m.group(0) == "_":
+            return None
+        i = m.end()
+        if i < n and t[i] == "<":
+            i += 1
+            while True:
+                i = _parse_simple_path(t, i)
+                if i is None or i >= n:
+                    return None
+                if t[i] == ",":
+                    i += 1
+                    continue
+                if t[i] == ">":
+                    i += 1
+                    break
+                return None
+        if t.startswith("::", i):
+            i += 2
+            continue
+        return i
+
+
 def is_type_path(p):
     """Is the extension's `path` a Rust type path?  True / False where that is
-    plain from the README pattern and Rust's lexical rules, None where only a
-    Rust parser can tell (generic arguments etc.): the oracle then abstains."""
+    plain from the README pattern, Rust's lexical rules and the plainest form
+    of generic arguments (`a::B<c::D, e::F>`), None where only a Rust parser
+    can tell: the oracle then abstains."""
     raw = (p[2:] if p.startswith("::") else p).split("::")      # a leading `::` is a global path
     segs = [x.strip(" ") for x in raw]
     if all(RUST_IDENT.match(x) and x not in RUST_KEYWORDS and x != "_" for x in segs):
         return True if segs == raw else None                    # blanks between tokens: parser's business
+    if " " not in p and _parse_simple_path(p, 0) == len(p):
+        return True
     if "<" in p or "(" in p or "[" in p or "&" in p:
         return None
     return False
@@ -808,6 +899,15 @@ def run_pipeline(ctx):
         if MUT == "real-lookup-underscore" and isinstance(c["ext"], dict) and c["ext"].get("crate") == "my-crate" \
                 and any(x["name"] == "my_crate" for x in c["crates"]) and obs.get("t") == "Thing":
             obs = dict(obs, t="::my_crate::m::Thing")     # emulates a lookup by crate_ident
+        if MUT == "real-rename-replace-all" and readme_wellformed(c["ext"]) and "fail" not in obs:
+            # emulates `path.replace(&crate_ident, &new_crate.replace('-', "_"))` (seeded change C13-s2)
+            idn = c["ext"]["crate"].replace("-", "_")
+            cf = [x for x in c["crates"] if x["name"] == c["ext"]["crate"] and x.get("rename")]
+            if cf and c["ext"]["path"].startswith(idn + "::"):
+                hd = cf[-1]["rename"].replace("-", "_")
+                good = norm_ty("::" + hd + c["ext"]["path"][len(idn):])
+                badp = norm_ty("::" + c["ext"]["path"].replace(idn, hd))
+                obs = {k2: (v2.replace(good, badp) if isinstance(v2, str) else v2) for k2, v2 in obs.items()}
         if MUT == "real-no-path-check" and not info["type_path"] and readme_wellformed(c["ext"]) \
                 and c["ext"]["path"].startswith(c["ext"]["crate"].replace("-", "_") + "::"):
             obs = {"fail": "emulated: type path wasn't valid (to_stream panic)"}   # 31fad76 reverted
@@ -841,7 +941,9 @@ def run_pipeline(ctx):
             dn = pascal(c["defname"])
             if o[0] == "use":
                 ty = o[1]
-                names_differ = ty.split("<")[0].split("::")[-1] != c["defname"]
+                # generic arguments written inside `path`: which text is "the name" is not fixed by the
+                # property; both the direct use and the newtype are accepted there
+                names_differ = "<" in c["ext"]["path"] or ty.split("<")[0].split("::")[-1] != c["defname"]
                 ok_t = obs["t"] == ty or (names_differ and obs["t"] == dn and obs["def"] == "newtype " + ty)
                 ok = ok_t and obs["i"] == ty and obs["inline_item"] == "none" and obs["def"] != "structural" \
                     and obs.get("api_i") == ty and obs.get("api_t") == obs["t"] \
@@ -865,7 +967,9 @@ def run_pipeline(ctx):
         "paths_accepted_by_syn_outside_README_pattern (oracle abstains)": sorted(
             set(p for p, t in zip(paths, tp_res) if t and is_type_path(p) is None)), "render_panics (compared on the type space only)": n_render_panic, "property_text_undetermined (unconvertible parameter, or path needing a Rust parser)": unspecified,
         "rule": "product {util, my-crate} x policy x (definition name, last segment) x 7 parameter lists x "
-                "{absent,*,!,match,mismatch} x rename {none, plain, hyphenated}; 49 malformed/edge extension values x 8 "
+                "{absent,*,!,match,mismatch} x rename {none, plain, hyphenated}; recur: 6 crate names x 13 paths in which "
+                "the crate identifier occurs again (whole segment, prefix/suffix/infix, other case, generic arguments) x 8 "
+                "renames + seeded segments over the crate's own alphabet; 49 malformed/edge extension values x 8 "
                 "crate tables x policy; operator-boundary (requirement, configured version) pairs",
     }
     k = max(1, len(cases) // 6)
